@@ -378,6 +378,120 @@ fn complex_space(ctx: &Ctx, n: usize, full: bool) {
     );
 }
 
+/// the same nonsingular matrix reached through different construction / editing paths must be solved identically
+fn provenance_case(a: &M, b: &[Rat]) -> Result<(), String> {
+    let n = a.len();
+    let bv = model::to_vector(b);
+    let zero = Rat::int(0);
+    let filler: Vec<Rat> = (0..n).map(|j| Rat::int(9 + j as i64)).collect();
+    for path in 0..6usize {
+        let build = || -> Matrix<Rat> {
+            match path {
+                // an extra row (holding large entries) deleted again, at every position
+                0 | 1 | 2 => {
+                    let pos = (path * n) / 2; // 0, n/2, n
+                    let mut m = Matrix::new(n + 1, n, zero);
+                    let mut src = 0;
+                    for i in 0..n + 1 {
+                        if i == pos.min(n) {
+                            for j in 0..n {
+                                m[(i, j)] = filler[j];
+                            }
+                        } else {
+                            for j in 0..n {
+                                m[(i, j)] = a[src][j];
+                            }
+                            src += 1;
+                        }
+                    }
+                    m.delete_row(pos.min(n));
+                    m
+                }
+                // shrunk from a larger matrix
+                3 => {
+                    let mut m = Matrix::new(n + 2, n + 1, Rat::int(7));
+                    for i in 0..n {
+                        for j in 0..n {
+                            m[(i, j)] = a[i][j];
+                        }
+                    }
+                    m.resize(n, n);
+                    m
+                }
+                // transposed twice / built column by column
+                4 => {
+                    let mut m = Matrix::new(n, n, zero);
+                    for j in 0..n {
+                        m.set_col(j, Vector::create((0..n).map(|i| a[i][j]).collect()));
+                    }
+                    m.transpose_in_place();
+                    m.transpose_in_place();
+                    m
+                }
+                // grown from the empty matrix, rows swapped into place
+                _ => {
+                    let mut m = Matrix::<Rat>::empty();
+                    m.resize(n, n);
+                    for i in 0..n {
+                        m.set_row(i, Vector::create(a[(i + 1) % n].clone()));
+                    }
+                    for i in (1..n).rev() {
+                        m.swap_rows(i, i - 1);
+                    }
+                    m
+                }
+            }
+        };
+        let reference = model::to_matrix(a, n);
+        let built = build();
+        ensure!(built == reference, "construction path {} does not yield the intended matrix (C03's business): {:?}", path, built);
+        let x1 = build().solve_basic(&bv);
+        ensure!(model::matvec(a, &x1.vec) == b, "path {}: solve_basic: A*x != b (x = {})", path, model::showv(&x1.vec));
+        let x2 = build().solve_lu(&bv);
+        ensure!(model::matvec(a, &x2.vec) == b, "path {}: solve_lu: A*x != b (x = {})", path, model::showv(&x2.vec));
+        // solving twice from the same object: the first call may modify the matrix, a fresh clone must not be affected
+        let orig = build();
+        let c1 = orig.clone();
+        let mut w = orig;
+        let _ = w.solve_basic(&bv);
+        let mut c = c1.clone();
+        let x3 = c.solve_lu(&bv);
+        ensure!(model::matvec(a, &x3.vec) == b, "path {}: clone taken before a solve was affected by it", path);
+    }
+    Ok(())
+}
+
+fn scaled_space(ctx: &Ctx) {
+    // uniformly scaled twins of the 2x2 / 3x3 integer lattices: conditioning is scale invariant, so the same threshold applies
+    let scales = [2f64.powi(-60), 2f64.powi(-30), 2f64.powi(40), 1e-18, 1e18];
+    for (n, letters) in [(2usize, z5()), (3usize, z3())] {
+        let len = pow(letters.len() as u64, (n * n) as u32);
+        ctx.lattice(
+            &format!("f64 n={} uniformly scaled integer lattice x scales {{2^-60,2^-30,2^40,1e-18,1e18}}", n),
+            len * scales.len() as u64,
+            |idx| format!("{} scale {:e}", model::show(&model::mat_from_idx(idx / 5, n, &letters)), scales[(idx % 5) as usize]),
+            |idx, acc| {
+                let a = model::mat_from_idx(idx / 5, n, &letters);
+                if model::det(&a).is_zero() {
+                    return;
+                }
+                let sc = scales[(idx % 5) as usize];
+                acc.nontriv("uniformly scaled system");
+                let af: F = model::to_f(&a).iter().map(|r| r.iter().map(|x| x * sc).collect()).collect();
+                let b: Vec<f64> = (0..n).map(|i| if i % 2 == 0 { 1.0 + i as f64 } else { -2.0 }).collect();
+                let mut local = Acc::new("tmp");
+                let res = catch(|| check_f64(&af, &b, false, Some(&mut local)));
+                acc.merge_worst(local);
+                match res {
+                    Ok(Ok(())) => {}
+                    Ok(Err(e)) => acc.fail(idx, format!("scaled A={:?} b={:?}", af, b), e),
+                    Err(p) => acc.fail(idx, format!("scaled A={:?} b={:?}", af, b), format!("unexpected panic: {}", p)),
+                }
+            },
+        );
+    }
+}
+
 fn main() {
     let ctx = Ctx::from_args("C01");
     ctx.level("exploration");
@@ -402,6 +516,27 @@ fn main() {
     f64_int_space(&ctx, 3, z3(), "{0,1,-1}");
     tiny_space(&ctx, 2, 4);
     tiny_space(&ctx, 3, ctx.pick(2, 9));
+    scaled_space(&ctx);
+    {
+        let letters = z3();
+        let n = 3usize;
+        let rhs = vec![vec![r(1), r(-2), r(3)], vec![r(0), r(0), r(1)]];
+        ctx.lattice(
+            "exact n=3: every nonsingular matrix over {0,1,-1} reached through 6 construction/editing paths (delete_row, resize, set_col + transposes, grown from empty + swaps)",
+            pow(3, 9),
+            |idx| model::show(&model::mat_from_idx(idx, n, &letters)),
+            |idx, acc| {
+                let a = model::mat_from_idx(idx, n, &letters);
+                if model::det(&a).is_zero() {
+                    return;
+                }
+                acc.nontriv("system reached through an editing history");
+                for b in rhs.iter() {
+                    judge(acc, idx, || format!("provenance A={} b={}", model::show(&a), model::showv(b)), || provenance_case(&a, b));
+                }
+            },
+        );
+    }
     complex_space(&ctx, 1, true);
     complex_space(&ctx, 2, true);
     complex_space(&ctx, 3, false);
